@@ -168,3 +168,39 @@ Proof.
     exists EEof. rewrite (delim_as_loop sc c t (length t)) by lia.
     rewrite (varint_cut_eof _ _ _ _ R eq_refl Hy). reflexivity.
 Qed.
+
+(* ---- (7) over-run: the payload's complete records stop short of the announced size and the next
+        record crosses it: ValueError, whatever follows ---- *)
+Definition one_record (rec : list byte) : Prop :=
+  exists nw r s1 p, load_varint rec = Ok (nw, r, s1) /\ load_field (S (length s1)) s1 nw r = Ok (p, []).
+
+Theorem frame_overrun sc c pre n a rec rest m :
+  VarintRep n pre -> parse sc c a = Ok m -> one_record rec ->
+  Zlength a < n -> n < Zlength a + Zlength rec ->
+  load_delimited sc c (pre ++ a ++ rec ++ rest) = Err EValue.
+Proof.
+  intros R P (nw & r & s1 & p & Vr & Fr) Hlo Hhi.
+  set (s := pre ++ a ++ rec ++ rest). set (f := length s).
+  destruct (lv_sound _ _ _ _ Vr) as (Er & _ & _).
+  assert (La : (length a <= f)%nat) by (subst f s; rewrite !app_length; lia).
+  assert (L1 : (length s1 < f)%nat).
+  { subst f s. rewrite Er, !app_length. destruct (lv_sound _ _ _ _ Vr) as (_ & Lr & _). lia. }
+  rewrite (delim_as_loop sc c s f) by lia. subst s.
+  rewrite (load_varint_rep _ _ _ R). cbn [bind].
+  pose proof (Zlen_nonneg a). replace (n =? 0) with false by lia.
+  rewrite (parse_as_loop sc c a f La) in P.
+  destruct (uloop f sc c (S (length a)) a) as [[o' u']|] eqn:U; [|discriminate].
+  unfold sloop, uloop in *.
+  rewrite (load_field_fuel (S (length s1)) f) in Fr by lia.
+  eapply (loop_overrun _ _ _ _ (load_field_acct f) (load_field_app f)); try eassumption;
+    try lia.
+  rewrite !app_length. lia.
+Qed.
+
+(* the frame of an empty message is the single byte 00: nothing after it is read *)
+Lemma empty_frame sc c rest : load_delimited sc c (x00 :: rest) = Ok (sow_true (new sc c), rest).
+Proof.
+  apply (frame_load_ok sc c [x00] [] rest).
+  - repeat split; cbn; lia.
+  - apply parse_nil.
+Qed.
